@@ -550,7 +550,10 @@ class Executor(object):
             ln = call.func.id
             if ln not in self.reg.lemmas:
                 raise ContractMismatch('unknown lemma %s' % ln)
-            args = [self.cvalue(a, st, entry, result) for a in call.args]
+            try:
+                args = [self.cvalue(a, st, entry, result) for a in call.args]
+            except OutOfSubset:
+                continue        # the instance mentions a local this path never assigned
             st.pc.append(lemmas.instance_at(self, self.reg.lemmas[ln], args))
             self.lemmas_used.add(ln)
         for cl in contract.ensures:
